@@ -36,8 +36,8 @@ CHECKS = {
         "engine": "clockworld",
     },
     "C10": {
-        "level": ("exploration", "Relational check under pairs of distant simulated clocks and process zones: strict result is None or equals the non-strict result in the same world; a non-None strict result (and each REQUIRE_PARTS part) is identical under both clocks and both RELATIVE_BASE values, for absolute / custom-format / timestamp parsers, partial dates generated from every subset of {day, month, year, weekday, time} in languages drawn from the tree's data.", "4.5"),
-        "note": "Relational oracle (no expected values); samples strings/languages; only two clocks per case.",
+        "level": ("exploration", "Absolute clause R0 (a strict result only if some token of the harness-generated string can carry each demanded part) plus relational check under pairs of distant simulated clocks and process zones: strict result is None or equals the non-strict result in the same world; a non-None strict result (and each REQUIRE_PARTS part) is identical under both clocks and both RELATIVE_BASE values, for absolute / custom-format / timestamp parsers, partial dates generated from every subset of {day, month, year, weekday, time} in languages drawn from the tree's data.", "4.5"),
+        "note": "R0 is judged only in single-reading pipelines (one language, one parser); R1 value changes in multi-reading pipelines that are explained by a single reading of the same pipeline are a recorded known finding (known_findings.json). Samples strings/languages; two clocks per case.",
         "technique": "deterministic simulation: paired simulated clocks/zones, metamorphic relations across worlds",
         "engine": "clockworld",
     },
@@ -54,7 +54,7 @@ CHECKS = {
         "engine": "clockworld",
     },
     "C03": {
-        "level": ("exploration", "Seeded call histories (parse / DateDataParser slots / search_dates / calendars / failing calls / cache-limit pressure / regex purges / restarts) run in a fresh process under a frozen simulated clock; every call's outcome is compared with the same call made alone in a fresh process under another hash seed; caller-owned dicts/lists compared before/after. Failing histories are ddmin-minimised and replayed.", "4.1"),
+        "level": ("exploration", "Seeded call histories (parse / DateDataParser slots / search_dates / calendars / failing calls / cache-limit pressure / regex purges / restarts; contrast-mode settings variants and scenario templates T1-T8) run in a fresh process under a frozen simulated clock; every call's outcome is compared with the same call made alone in a fresh process under another hash seed; caller-owned dicts/lists compared before/after. Failing histories are ddmin-minimised and replayed.", "4.1"),
         "note": "Samples histories (length <= 40); oracle says nothing about correctness of an answer, only about history independence.",
         "technique": "deterministic simulation: seeded operation histories with failure/cache-pressure/restart faults against a memoryless fresh-process reference model",
         "engine": "history",
